@@ -95,25 +95,28 @@ theorem parseFiles_nil (fuel : Nat) (data : Bytes) (off length free : Nat) (st :
     (hfuel : 2 ≤ fuel) (hd : data.drop (alignUp off 8) = tailFiles off [] free)
     (hlen : data.length = length) (hl : length = off + free) (h8 : length % 8 = 0) (hlt : length < 2 ^ 62)
     (h24 : 24 ≤ length)
-    (htail : off + 24 < length → alignUp off 8 + 32 ≤ length) :
+    (_htail : off + 24 < length → alignUp off 8 + 32 ≤ length) :
     parseFiles Hk fuel data off ((length + 18446744073709551616 - 24) % 18446744073709551616) length st =
-      .ok ([], (if off + 24 < length then length - alignUp off 8 else 0), st) := by
+      .ok ([], (if off + 24 ≤ length then length - alignUp off 8 else 0), st) := by
   obtain ⟨f, rfl⟩ : ∃ f, fuel = f + 1 := ⟨fuel - 1, by omega⟩
   obtain ⟨f', rfl⟩ : ∃ f', f = f' + 1 := ⟨f - 1, by omega⟩
   have hlh : (length + 18446744073709551616 - 24) % 18446744073709551616 = length - 24 := by omega
   rw [parseFiles, hlh]
-  by_cases hc : off + 24 < length
-  · have := htail hc
-    have hal := alignUp_ge off 8 (by decide)
-    rw [if_pos (show off < length - 24 by omega), if_pos hc]
+  by_cases hc : off + 24 ≤ length
+  · have hal := alignUp_ge off 8 (by decide)
+    have hal2 : alignUp off 8 + 24 ≤ length := by
+      have hm := alignUp_mod off 8
+      have hlt8 := alignUp_lt off 8 (by decide)
+      omega
+    rw [if_pos (show off ≤ length - 24 by omega), if_pos hc]
     simp only [align8_eq off (by omega)]
     rw [if_neg (show ¬ data.length ≤ alignUp off 8 by omega), hd]
     have et : tailFiles off [] free = ffs (length - alignUp off 8) := by
       simp only [tailFiles, serFiles, List.nil_append, ffs, List.drop_replicate]
       have e : free - (alignUp off 8 - off) = length - alignUp off 8 := by omega
       rw [e]
-    rw [et, parseFile, fileHeader_ffs _ (by omega)]
-  · rw [if_neg (show ¬ off < length - 24 by omega), if_neg hc]
+    rw [et, parseFile, fileHeader_ffs24 _ (by omega)]
+  · rw [if_neg (show ¬ off ≤ length - 24 by omega), if_neg hc]
 
 /-- `NewFile` on a sectioned file, given the result of the section walk -/
 theorem parseFile_sect_gen (g : Guid) (ckh ckf : UInt8) (t a : Nat) (L : Bool) (stt : Nat) (data rest : Bytes)
